@@ -194,6 +194,24 @@ def cases(rng, tier):
     B = 1 << (18 if th else 13)
     for n in range(-3, B):
         out.append(mk(n, seed(), [], 'all-small-prime' if ref_prime(n) else 'all-small-composite', expected=ref_prime(n)))
+    # 1b. n - 1 divisible by a high power of two (n = k * 2^e + 1, e >= 64, 128, 192: whole zero machine words in n - 1):
+    # the decomposition n - 1 = d * 2^c must count every factor 2. Below the deterministic limit the reference decides;
+    # above it only Proth-certified primes are used (k < 2^e and a^((n-1)/2) = -1 mod n for some a proves n prime)
+    cnt = 0
+    for e in (64, 65, 66, 70, 75):
+        for k in range(1, 400, 2):
+            n = k * 2 ** e + 1
+            if n >= DET_LIMIT: break
+            isp = ref_prime(n)
+            if isp or k % 37 == 1:
+                out.append(mk(n, seed(), [], 'proth-shape-' + ('prime' if isp else 'composite'), expected=isp)); cnt += 1
+    for e in (128, 130, 189, 192, 201) if not th else (128, 130, 189, 192, 201, 209, 256, 276):
+        found = 0
+        for k in range(1, 4000, 2):
+            n = k * 2 ** e + 1
+            if any(pow(a, (n - 1) // 2, n) == n - 1 for a in (3, 5, 7, 11, 13)):
+                out.append(mk(n, seed(), [], 'proth-certified-prime', expected=True)); found += 1
+                if found >= (1 if not th else 3): break
     # 2. Carmichael numbers
     cars = carmichael_below(3 * 10 ** 6 if th else 2 * 10 ** 5) + chernick(3000 if th else 300)
     for n in cars:
